@@ -258,6 +258,36 @@ theorem mixed_zone_witness : ¬ list_roundtrip_full := by
   revert this
   decide
 
+/-- The same finding reaches UTC and floating items: in a list with one zoned item a UTC item keeps
+    its `Z` in the text (`RDATE;TZID=Europe/Berlin:20200101T100000Z,20200102T113000`) but is read in the
+    list's zone — 10:00 Berlin instead of 10:00 UTC, another instant — and a floating item comes back
+    zoned. So `list_roundtrip_partial` (one zone for all items) and `list_roundtrip_utc_floating` (no
+    zoned item) cannot be merged: every mixture of the two kinds is outside the property. -/
+theorem mixed_utc_zoned_witness :
+    listLine demo [dtItem ⟨w10, some .utc⟩, dtItem ⟨w11, some .berlin⟩] =
+      ⟨⟨none, some "Europe/Berlin".toList⟩, "20200101T100000Z,20200102T113000".toList⟩ ∧
+    readList demo RDATE (listLine demo [dtItem ⟨w10, some .utc⟩, dtItem ⟨w11, some .berlin⟩]) =
+      .ok [dtItem ⟨w10, some .berlin⟩, dtItem ⟨w11, some .berlin⟩] ∧
+    instant demo ⟨w10, some .utc⟩ ≠ instant demo ⟨w10, some .berlin⟩ ∧
+    readList demo RDATE (listLine demo [dtItem ⟨w10, none⟩, dtItem ⟨w11, some .berlin⟩]) =
+      .ok [dtItem ⟨w10, some .berlin⟩, dtItem ⟨w11, some .berlin⟩] := by decide
+
+/-- "The same UTC offset the provider assigns to that wall time", spelled out: the value a zoned
+    single property reads back as has the zone id it was written with, and its instant is the wall
+    time minus `P.off z w` — the provider's own offset for that wall time in that zone; the same for
+    every item of a one-zone list. -/
+theorem zoned_roundtrip_offset {Z : Type} (P : Provider Z) (ids : Str → Prop) (hl : ProviderLaws P ids)
+    (uname : Str) (hu : passesTzid uname = true) (z : Z) (hown : Own P z) (hk : ids (P.key z))
+    (hne : P.key z ≠ UTC) (w : Wall) (hw : w.valid = true) :
+    ∃ v : ZDT Z, readDdd P uname (dddLine P (dtItem ⟨w, some z⟩)) = .ok (dtItem v) ∧ v.wall = w ∧
+      tzidFromDt P v = some (P.key z) ∧ instant P v = some (toSec w - P.off z w) ∧
+      readList P uname (listLine P [dtItem ⟨w, some z⟩]) = .ok [dtItem v] := by
+  refine ⟨⟨w, some z⟩, (zoned_roundtrip P ids hl uname hu z hown hk hne w hw).2.1, rfl, rfl, rfl, ?_⟩
+  have := (list_roundtrip_partial P ids hl uname hu z hown hk hne [w] (by simp) (by simpa using hw)).2
+  simpa using this
+
+example : instant demo ⟨w10, some .berlin⟩ = some (toSec w10 - 3600) := by decide
+
 /-! ## periods (FREEBUSY, RDATE;VALUE=PERIOD) -/
 
 /-- the period `(start in zone z, e)` -/
